@@ -231,3 +231,43 @@ theorem convex_objectives_every_exit (e : Env K n p m) (d0 : Data K n p m) (hk :
   · rw [← hfresh.diag.2.2.2.2.1, ← hfresh.diag.2.2.1, ← hfresh.diag.2.2.2.1]; exact hg
 end everyExit
 end Piqp.C09
+
+namespace Piqp.C09
+section verdictNorms
+open Finset Piqp.C13 Piqp.C15 Piqp.C01 Piqp.C02
+variable {K : Type} [Field K] [LinearOrder K] [IsStrictOrderedRing K] [Inhabited K]
+variable {n p m : Nat}
+
+theorem head_norms (e : Env K n p m) (b : Bool) (w : Work K n p m) (info : Info K) :
+    (headInfo e b w info).2.primalInf = primalInfNr e (headInfo e b w info).1 ∧
+    (headInfo e b w info).2.dualInf = dualInfNr e (headInfo e b w info).1 := by
+  cases b <;> exact ⟨rfl, rfl⟩
+
+/-- **C09, residual norms at a verdict** (no assumption on the data or on factorisation failures): whenever the loop returns
+    SOLVED or an infeasibility verdict, `info.primal_inf` and `info.dual_inf` are the norms of the non-regularised residuals
+    stored with the returned iterate (whose entries are the user's residuals, `C01.primal_residuals_are_users` /
+    `dual_residual_is_users`) -/
+theorem verdict_residual_norms (e : Env K n p m) (c : Ctrl) (s : NumState K n p m) (info : Info K)
+    (h : (loopG e.st e.cs (realOps e) c s info).2 = Status.solved ∨ (loopG e.st e.cs (realOps e) c s info).2 = Status.primalInfeasible ∨
+      (loopG e.st e.cs (realOps e) c s info).2 = Status.dualInfeasible) :
+    (loopG e.st e.cs (realOps e) c s info).1.2.2.primalInf = primalInfNr e (loopG e.st e.cs (realOps e) c s info).1.2.1.1 ∧
+    (loopG e.st e.cs (realOps e) c s info).1.2.2.dualInf = dualInfNr e (loopG e.st e.cs (realOps e) c s info).1.2.1.1 := by
+  fun_induction loopG e.st e.cs (realOps e) c s info
+  case case1 c s info hlt hi htest => exact head_norms e (c.iter == 0) s.1 info
+  case case2 c s info hlt hi htest s1 hp =>
+    have hn := head_norms e (c.iter == 0) s.1 info
+    have hs : SameNr (headInfo e (c.iter == 0) s.1 info).1 (regResiduals e (headInfo e (c.iter == 0) s.1 info).1 (headInfo e (c.iter == 0) s.1 info).2) :=
+      ⟨rfl, rfl, rfl, rfl, rfl⟩
+    exact ⟨hn.1.trans (primalInfNr_congr e hs), hn.2.trans (dualInfNr_congr e hs)⟩
+  case case3 c s info hlt hi htest s1 hp hd =>
+    have hn := head_norms e (c.iter == 0) s.1 info
+    have hs : SameNr (headInfo e (c.iter == 0) s.1 info).1 (regResiduals e (headInfo e (c.iter == 0) s.1 info).1 (headInfo e (c.iter == 0) s.1 info).2) :=
+      ⟨rfl, rfl, rfl, rfl, rfl⟩
+    exact ⟨hn.1.trans (primalInfNr_congr e hs), hn.2.trans (dualInfNr_congr e hs)⟩
+  case case4 ih => exact ih h
+  case case5 ih => exact ih h
+  case case6 ih => exact ih h
+  case case7 => rcases h with h | h | h <;> exact absurd h (by simp)
+  case case8 => rcases h with h | h | h <;> exact absurd h (by simp)
+end verdictNorms
+end Piqp.C09
